@@ -12,26 +12,94 @@ def is_sym(x):
 
 
 class F:
-    """an f64 value in real mode: v is a Fraction, or a z3 Real expression"""
-    __slots__ = ("v",)
+    """an f64 value in real mode.  v: Fraction | z3 Real (the value, or the NUMERATOR when d is set);
+    d: None | z3 Real denominator (fraction mode: value = v/d, d assumed non-zero where it matters)"""
+    __slots__ = ("v", "d")
 
-    def __init__(self, v):
+    def __init__(self, v, d=None):
         if isinstance(v, F):
-            v = v.v
+            v, d = v.v, v.d
         elif isinstance(v, (int,)) and not isinstance(v, bool):
             v = Fraction(v)
         elif isinstance(v, float):
             v = Fraction(v)
         self.v = v
+        self.d = d
 
     def __repr__(self):
-        return f"F({self.v})"
+        return f"F({self.v})" if self.d is None else f"F({self.v} / {self.d})"
 
     def sym(self):
-        return is_sym(self.v)
+        return is_sym(self.v) or self.d is not None
+
+    def num(self):
+        return self.v if is_sym(self.v) else rv(self.v)
 
     def z(self):
-        return self.v if is_sym(self.v) else rv(self.v)
+        """a single z3 term for the value (uses z3 real division for fractions)"""
+        n = self.num()
+        return n if self.d is None else n / self.d
+
+    def pair(self):
+        return self.num(), (self.d if self.d is not None else z3.RealVal(1))
+
+
+def fr_bin(op, a, b):
+    """exact fraction arithmetic on F values (no fresh variables): the result carries an explicit denominator"""
+    if a.d is None and b.d is None and not is_sym(a.v) and not is_sym(b.v):
+        if op == "add": return F(a.v + b.v)
+        if op == "sub": return F(a.v - b.v)
+        if op == "mul": return F(a.v * b.v)
+        if op == "div" and b.v != 0: return F(a.v / b.v)
+    (n1, d1), (n2, d2) = a.pair(), b.pair()
+    one1, one2 = a.d is None, b.d is None
+    if op in ("add", "sub"):
+        if one1 and one2:
+            return F(n1 + n2 if op == "add" else n1 - n2)
+        if (one1 and one2) or (not one1 and not one2 and z3.eq(d1, d2)):
+            return F(n1 + n2 if op == "add" else n1 - n2, d1)
+        if one2:
+            return F(n1 + n2 * d1 if op == "add" else n1 - n2 * d1, d1)
+        if one1:
+            return F(n1 * d2 + n2 if op == "add" else n1 * d2 - n2, d2)
+        return F(n1 * d2 + n2 * d1 if op == "add" else n1 * d2 - n2 * d1, d1 * d2)
+    if op == "mul":
+        if not is_sym(a.v) and a.d is None:
+            if a.v == 0: return F(0)
+            if a.v == 1: return b
+        if not is_sym(b.v) and b.d is None:
+            if b.v == 0: return F(0)
+            if b.v == 1: return a
+        d = None if (one1 and one2) else (d2 if one1 else d1 if one2 else d1 * d2)
+        return F(n1 * n2, d)
+    if op == "div":
+        if one2 and not is_sym(b.v) and b.v != 0:
+            return F(n1 * rv(1 / Fraction(b.v)), a.d)
+        nd = n2 if one1 else d1 * n2
+        nn = n1 if one2 else n1 * d2
+        return F(nn, nd)
+    raise ValueError(op)
+
+
+def fr_eq(a, b):
+    """a == b as a division-free formula (denominators non-zero)"""
+    (n1, d1), (n2, d2) = a.pair(), b.pair()
+    if a.d is None and b.d is None:
+        return n1 == n2
+    if a.d is None:
+        return n1 * d2 == n2
+    if b.d is None:
+        return n1 == n2 * d1
+    return n1 * d2 == n2 * d1
+
+
+def fr_ite(c, a, b):
+    if c is True: return a
+    if c is False: return b
+    (n1, d1), (n2, d2) = a.pair(), b.pair()
+    if a.d is None and b.d is None:
+        return F(z3.If(c, n1, n2))
+    return F(z3.If(c, n1, n2), z3.If(c, d1, d2))
 
 
 def rv(fr):
@@ -130,6 +198,15 @@ def wrap_int(v, lo, hi):
 # ---------------------------------------------------------------- floats (real mode)
 def f_bin(m, op, a, b):
     """a, b: F.  m: machine (for fresh quotient variables)"""
+    if a.d is not None or b.d is not None or (op == "div" and getattr(m, "div_mode", "quot") == "frac" and (is_sym(b.v))):
+        if op == "rem":
+            q = f_bin(m, "div", a, b)
+            t = f_trunc(m, q)
+            return f_bin(m, "sub", a, f_bin(m, "mul", t, b))
+        if op == "div" and b.sym():
+            # the value is only defined when the divisor is non-zero: recorded as an obligation of the path
+            m.div_guards.append(b.num() != 0)
+        return fr_bin(op, a, b)
     x, y = a.v, b.v
     cx, cy = not is_sym(x), not is_sym(y)
     if cx and cy:
@@ -168,12 +245,16 @@ def f_bin(m, op, a, b):
 
 
 def f_neg(a):
-    if not is_sym(a.v):
-        return F(-a.v)
-    return F(-a.v)
+    return F(-a.v, a.d)
 
 
 def f_cmp(op, a, b):
+    if a.d is not None or b.d is not None:
+        (n1, d1), (n2, d2) = a.pair(), b.pair()
+        if op == "eq": return fr_eq(a, b)
+        if op == "ne": return z3.Not(fr_eq(a, b))
+        diff = (n1 * d2 - n2 * d1) * (d1 * d2)     # sign of a-b (times a positive square)
+        return {"lt": diff < 0, "le": diff <= 0, "gt": diff > 0, "ge": diff >= 0}[op]
     x, y = a.v, b.v
     if not is_sym(x) and not is_sym(y):
         return {"eq": x == y, "ne": x != y, "lt": x < y, "le": x <= y, "gt": x > y, "ge": x >= y}[op]
@@ -182,6 +263,8 @@ def f_cmp(op, a, b):
 
 
 def f_trunc(m, a):
+    if a.d is not None:
+        a = F(m.quotient(a.num(), a.d))
     x = a.v
     if not is_sym(x):
         n = abs(x.numerator) // x.denominator
@@ -194,6 +277,9 @@ def f_trunc(m, a):
 
 
 def f_abs(a):
+    if a.d is not None:
+        n, d = a.pair()
+        return F(z3.If(n * d >= 0, n, -n), a.d)
     x = a.v
     if not is_sym(x):
         return F(abs(x))
